@@ -271,6 +271,52 @@ def run(check):
       r_rr.violate('watermark test without signal', m, None, '%s tests the watermark but never fires queueHasSpace' % h,
                    construct='queueHasSpace.callback')
 
+  # ------------------------------------------------------------------ the queue callbacks themselves cannot fail
+  # a callback of the one-shot queueFull / queueHasSpace Deferreds that raises is swallowed by the Deferred: the event is not
+  # fired and the Deferred is not re-armed, so paused receivers stay paused with empty queues
+  r_cb = check.rule('R-C09-callbacks-total', 2, 'the queue-full / queue-has-space callbacks cannot raise before they have fired their '
+                    'event and re-armed their Deferred')
+  optional = set()
+  for m_ in fac.methods.values():
+    for st in ast.walk(m_.node):
+      if isinstance(st, ast.Assign) and isinstance(st.value, ast.Constant) and st.value.value is None:
+        for t in st.targets:
+          if isinstance(t, ast.Attribute) and isinstance(t.value, ast.Name) and m_.params and t.value.id == m_.params[0]:
+            optional.add(t.attr)
+  for cbn in ('queueFullCallback', 'queueSpaceCallback'):
+    cb = fac.methods.get(cbn)
+    if cb is None:
+      r_cb.cannot_decide('CarbonClientFactory.%s not found' % cbn)
+      continue
+    gcb = cx.cfg(cb)
+    bad = None
+    for n in gcb.nodes:
+      if n.ast is None or n.kind not in ('stmt', 'test'):
+        continue
+      expr = n.ast if n.kind == 'test' or not isinstance(n.ast, (ast.If, ast.While, ast.For, ast.With, ast.Try)) else None
+      if expr is None:
+        continue
+      for x in walk_no_nested(expr):
+        if isinstance(x, ast.Attribute) and isinstance(x.value, ast.Attribute) and isinstance(x.value.value, ast.Name) and \
+           cb.params and x.value.value.id == cb.params[0] and x.value.attr in optional and isinstance(x.ctx, ast.Load):
+          opt = x.value.attr
+
+          def known_set(a, lab, b, opt=opt):
+            if not isinstance(lab, tuple):
+              return False
+            t = unparse(lab[1]).replace(' ', '')
+            return (lab[0] == 'T' and t in ('self.%s' % opt, 'self.%sisnotNone' % opt)) or \
+                   (lab[0] == 'F' and t in ('notself.%s' % opt, 'self.%sisNone' % opt))
+          if n in gcb.reach([gcb.entry], removed_edge=known_set, normal_only=True):
+            bad = (x, opt)
+    if bad:
+      r_cb.violate('%s can raise' % cbn, cb, bad[0], '`%s` dereferences self.%s, which is None while the destination is not connected '
+                   '(destinationDown() runs the space check for a destination that has just been removed): the AttributeError is '
+                   'swallowed by the Deferred, cacheSpaceAvailable is never fired and the Deferreds are not re-armed'
+                   % (short(bad[0]), bad[1]))
+    else:
+      r_cb.ok('%s dereferences no attribute that may be None' % cbn, cb.loc())
+
   # state that records "full" is only reset where the pause it caused is released
   r_st = check.rule('R-C09-signal-state', 2, 'the one-shot queueFull record is re-armed only on the space path')
   def rebinds(m, attr):
